@@ -17,7 +17,7 @@ RULE = ("A: C01 lattice (all reference subsets x query subsets containing 0 x 1.
 ASSUMPTIONS = ["no equidistant ties: maxPairDistance below half the lattice step (precondition of the property)",
                "exact peak-score ties between the two strands of one query are counted as tie_undecided, not judged"]
 STEP = 10
-CONFIGS = [(100, 1, -25, 100, 120, 1, 0), (100, 1, -25, 150, 60, 1, 0), (100, 1, 0, 100, 120, 1, 1)]
+CONFIGS = [(100, 1, -25, 100, 120, 1, 0), (100, 1, -25, 60, 120, 1, 0), (100, 1, -25, 150, 60, 1, 0), (100, 1, 0, 100, 120, 1, 1)]
 
 
 def canon(row, n, mirrored):
